@@ -172,7 +172,10 @@ _dispatch_workq_count_runnable_workers(dispatch_workq_monitor_t mon)
 		if (bytes_read > 0) {
 			buf[bytes_read] = '\0';
 			char state;
-			if (sscanf(buf, "%*d %*s %c", &state) == 1) {
+			// the second field is the thread name in parentheses; it may
+			// contain blanks and parentheses, the state follows the last ')'
+			char *comm_end = strrchr(buf, ')');
+			if (comm_end && sscanf(comm_end + 1, " %c", &state) == 1) {
 				// _dispatch_debug("workq: Worker %d, state %c\n", tid, state);
 				if (state == 'R') {
 					running_count++;
